@@ -9,6 +9,73 @@ HERE = os.path.dirname(os.path.dirname(os.path.abspath(__file__)))
 
 # id -> (level, technique, level text, level note, design ref)
 CHECKS = {
+    "C01": (
+        "exploration",
+        "Hypothesis round trip (sequence equality) over generated statements x configurations",
+        "Generated statement sequences over all term kinds (quoted, generalized, empty / non-ASCII / separator-less IRIs) x "
+        "physical type x five generic entry points x boundary presets (tables exactly as large as one statement needs, +1, "
+        "disabled) x frame sizes x delimited / single frame x three readers; the parsed sequence must equal the input term by "
+        "term in order. Sampled search, thousands of cases per run, non-triviality measured from the reference decoder's "
+        "audit (evictions, elisions, multi-frame).",
+        "Trusted: Hypothesis generators stay inside the stated domain (tables >= IRI / datatype occurrences of the largest "
+        "statement); pyjelly's reader is both subject and instrument here (C03 removes that dependency).",
+        "DESIGN.md 2/C01",
+    ),
+    "C02": (
+        "exploration",
+        "Hypothesis round trip (set equality over rdflib terms) through Graph/Dataset entry points",
+        "Generated RDF 1.1 data built into rdflib Graph / Dataset, written through Graph.serialize (bytes and destination), "
+        "stream_frames, flat_/grouped_stream_to_file with flat and grouped logical types, QuadStream and GraphStream, "
+        "boundary presets, delimited and non-delimited; read through Graph/Dataset.parse and the three parse functions; the "
+        "set of quads held by the source container must equal the set read.",
+        "Trusted: rdflib objects are the ground truth (rdflib normalises lexical forms; cannot hold falsy graph names).",
+        "DESIGN.md 2/C02",
+    ),
+    "C03": (
+        "exploration",
+        "independent reference decoder (own wire codec + spec state machine) as oracle on every generated output",
+        "Every byte string produced in the C01/C02 write scenarios is decoded by R, which shares no code with pyjelly or "
+        "protobuf and enforces each clause of the property as a separate violation kind; R's decoding must equal the input. "
+        "A symmetric writer+reader mistake is therefore visible.",
+        "Trusted: R is my transcription of the Jelly spec (DESIGN.md appendix A).",
+        "DESIGN.md 2/C03",
+    ),
+    "C04": (
+        "exploration",
+        "reference encoder with tape-drawn producer choices -> differential against six parse entry points",
+        "Ground truth -> reference encoder E making every legal producer choice from a Hypothesis-drawn choice tape -> bytes "
+        "(validated by R first) -> parse_jelly_flat / grouped / to_graph of both integrations must return the ground truth. "
+        "Reaches decoder paths pyjelly's own writer never exercises (non-LRU eviction, odd IRI splits, explicit ids, early / "
+        "redundant entries, un-elided repeats, empty frames, repeated options).",
+        "Trusted: E and R (my reading of the spec); rdflib term construction.",
+        "DESIGN.md 2/C04",
+    ),
+    "C18": (
+        "exploration",
+        "Hypothesis overflow statements: raise-or-reference-decode round trip, no blanket refusal",
+        "Statements needing more distinct prefix / datatype / name entries than the table holds, and their fitting "
+        "neighbours; serialisation must raise or the bytes must decode (by R) to the input; with roomy tables it must not raise.",
+        "Trusted: R; demand computed with the documented split rule.",
+        "DESIGN.md 2/C18",
+    ),
+    "C19": (
+        "exploration",
+        "row-level audit of generated outputs by the reference decoder (redundant entry / missed elision / missed zero / size bound)",
+        "Every entry row, term slot and id field of every generated output is audited by R: no entry for a resident string, "
+        "every repeatable term elided, zero forms used whenever equivalent, one graph start per run of equal graph names, "
+        "size <= naive encoding.",
+        "Trusted: R's audit; input equality semantics of the integration's term classes.",
+        "DESIGN.md 2/C19",
+    ),
+    "C20": (
+        "fault_enumeration",
+        "fault injection: poison position x slot x cause enumerated + Hypothesis sequences, catch-and-continue, decoded by R",
+        "Every (position, slot, cause) of a fixed sequence per stream class and encoder is enumerated, plus generated "
+        "sequences with 1..3 poisons; after catch-and-continue the bytes must decode (R) to exactly the accepted statements "
+        "and every prefix written before a failure must be a decodable prefix.",
+        "Trusted: R in prefix / lenient-bracket mode; the caller model (catch Exception, reuse stream, flush flow).",
+        "DESIGN.md 2/C20",
+    ),
     "C08": (
         "exploration",
         "exhaustive enumeration of header grammar + Hypothesis paired-output round trip",
